@@ -78,8 +78,8 @@ impl<S: Scanner> IsoSys<S> {
             _p: std::marker::PhantomData,
         }
     }
-    fn vio(&self, rule: &str, cls: &str, detail: String) -> Violation {
-        Violation::new(rule, format!("C15/{}/{}/{}", S::NAME, rule, cls), detail)
+    fn vio(&self, rule: &str, cls: &str, detail: impl FnOnce() -> String) -> Violation {
+        Violation::lazy(rule, format!("C15/{}/{}/{}", S::NAME, rule, cls), detail)
     }
 }
 
@@ -136,7 +136,7 @@ impl<S: Scanner> System for IsoSys<S> {
                 let om = n.m.feed_msg(&msg);
                 for t in om.iter().flatten() {
                     if t[0] != c as u32 {
-                        v.push(self.vio("report-carries-triggering-channel", "feed", format!("feeding CC #{} ={} on channel {} made the multi-channel scanner report a message for channel {}: {:?}", ctrl, val, c, t[0], t)));
+                        v.push(self.vio("report-carries-triggering-channel", "feed", || format!("feeding CC #{} ={} on channel {} made the multi-channel scanner report a message for channel {}: {:?}", ctrl, val, c, t[0], t)));
                     }
                 }
                 if *slot < 2 {
@@ -144,7 +144,7 @@ impl<S: Scanner> System for IsoSys<S> {
                     set_clock(s.now);
                     let os = solo.feed_msg(&msg);
                     if os != om {
-                        v.push(self.vio("same-as-solo-scanner", "feed", format!("interleaved stream on channels {:?}: feeding CC #{} ={} on channel {} returned {:?}; a scanner fed only channel {}'s inputs returned {:?}", &self.chans, ctrl, val, c, om, c, os)));
+                        v.push(self.vio("same-as-solo-scanner", "feed", || format!("interleaved stream on channels {:?}: feeding CC #{} ={} on channel {} returned {:?}; a scanner fed only channel {}'s inputs returned {:?}", &self.chans, ctrl, val, c, om, c, os)));
                     }
                 }
                 if om[0].is_some() || om[1].is_some() {
@@ -154,7 +154,7 @@ impl<S: Scanner> System for IsoSys<S> {
             IAct::Sys(st, a, b) => {
                 let om = n.m.feed_msg(&raw(*st, *a, *b));
                 if om[0].is_some() || om[1].is_some() {
-                    v.push(self.vio("system-message-reports-nothing", &format!("{:02X}", st), format!("system message ({:#04X},{},{}) made the scanner report {:?}", st, a, b, om)));
+                    v.push(self.vio("system-message-reports-nothing", &format!("{:02X}", st), || format!("system message ({:#04X},{},{}) made the scanner report {:?}", st, a, b, om)));
                 }
             }
             IAct::Poll(slot) => {
@@ -162,7 +162,7 @@ impl<S: Scanner> System for IsoSys<S> {
                 let om = n.m.poll_ch(c);
                 if let Some(t) = &om {
                     if t[0] != c as u32 {
-                        v.push(self.vio("report-carries-triggering-channel", "poll", format!("poll({}) returned a message for channel {}: {:?}", c, t[0], t)));
+                        v.push(self.vio("report-carries-triggering-channel", "poll", || format!("poll({}) returned a message for channel {}: {:?}", c, t[0], t)));
                     }
                 }
                 if *slot < 2 {
@@ -170,7 +170,7 @@ impl<S: Scanner> System for IsoSys<S> {
                     set_clock(s.now);
                     let os = solo.poll_ch(c);
                     if os != om {
-                        v.push(self.vio("same-as-solo-scanner", "poll", format!("interleaved stream on channels {:?}: poll({}) returned {:?}; a scanner fed only channel {}'s inputs returned {:?}", &self.chans, c, om, c, os)));
+                        v.push(self.vio("same-as-solo-scanner", "poll", || format!("interleaved stream on channels {:?}: poll({}) returned {:?}; a scanner fed only channel {}'s inputs returned {:?}", &self.chans, c, om, c, os)));
                     }
                 }
                 if let Some(t) = om {
